@@ -1,5 +1,14 @@
 --------------------------------- MODULE Set ---------------------------------
-(* Layer P reference model of collection.Set (property C16): a mathematical set. *)
+(* Layer P reference model of collection.Set (property C16): a mathematical set.
+
+   Elements are *typed values*: records [t |-> type tag, v |-> number].  Two Go values
+   are the same element iff they have the same dynamic type and the same value (they
+   are keys of a map[any]), so int 1, int64 1, uint 1 and "1" are four different
+   elements.  The reference model does not know whether the Set was created managed
+   (NewSet) or unmanaged (NewUnmanagedSet) nor which type a managed set saw first: a
+   managed set only *logs* when a value of another type arrives, it still stores,
+   finds, counts, lists and removes it -- whatever mixture of types it holds, it is a
+   mathematical set of typed values.                                                *)
 EXTENDS Integers, Sequences, FiniteSets, CollUtil
 
 VARIABLES
@@ -12,11 +21,16 @@ SNone == [op |-> "none"]
 SStart == sset' = {} /\ sout' = SNone
 SIdle  == sset = {} /\ sout = SNone
 
-\* Add is variadic: xs is the sequence of arguments
+\* Add is variadic: xs is the sequence of arguments (of one type or of several)
 SAdd(xs)     == sset' = sset \cup SeqRange(xs) /\ sout' = [op |-> "add"]
 SRemove(x)   == sset' = sset \ {x} /\ sout' = [op |-> "remove"]
 SContains(x) == sout' = [op |-> "contains", yes |-> (x \in sset)] /\ UNCHANGED sset
 SCount       == sout' = [op |-> "count", n |-> Cardinality(sset)] /\ UNCHANGED sset
 \* Keys returns the elements in some order, each once
 SKeys(ks)    == ListsSet(ks, sset) /\ sout' = [op |-> "keys"] /\ UNCHANGED sset
+\* KeysInt / KeysInt64 / KeysUint / KeysUint64 / KeysStr: the typed projection -- the
+\* values of exactly the elements of type T, in some order, each once (whatever else
+\* the set holds and whatever type the set saw first)
+SOfType(T)     == {x \in sset : x.t = T}
+SKeysOf(T, vs) == ListsSet(vs, {x.v : x \in SOfType(T)}) /\ sout' = [op |-> "keysof"] /\ UNCHANGED sset
 =============================================================================
